@@ -130,7 +130,7 @@ def run(tier, seed, replay):
     run.traces += s["cases"]
     run.evaluations += s["cases"]
     # the same cases through the real command line (every k-th case; all of them in the thorough tier / a replay)
-    stride = 1 if (replay or tier == "thorough") else 5
+    stride = 1 if replay else (3 if tier == "thorough" else 5)
     tc = os.path.join(d, "trace_cli.ndjson")
     sc = C.run_harness(hb, ["cli", "CONVERT", cases, tc, C.scratch_dir("C06cli"), vbin, str(stride)], timeout=6000)
     vc = C.validate_trace("trace/Trace_Convert.tla", "trace/Trace_Convert.cfg", "C06_cli_trace", tc, timeout=3000, heap="8g")
@@ -154,7 +154,7 @@ def run(tier, seed, replay):
                 "combinations x zoom limits x geographic boxes (half-tile grid of level 2: cutting through tiles, degenerate, world) "
                 "x border; each converting reader is built the way the CLI does, and coverage, walk of the coverage, lookups of all "
                 "coordinates of levels 0..3, box streams and (every 8th case) the file written by the real writer are judged by TLC; "
-                "every 5th case (thorough: every case) is also run through the real `versatiles convert` command line "
+                "every 5th case (thorough: every 3rd) is also run through the real `versatiles convert` command line "
                 "(options rendered as typed, source file from the independent encoder, output decoded independently); the real server "
                 "with --flip-y / --swap-xy answers coordinate requests with the tile at the pre-image. "
                 "non-trivial = case with a transform flag, >= 2 tiles and a zoom or geographic selection")
